@@ -35,3 +35,13 @@ Definition cb_diag (h : list cbop * list cbout * list (N * option (nat * nat)) *
   let '(ops, outs, infos, index) := h in
   let '(s, mouts) := cb_run cb_init ops in
   (mouts, map (fun p => cb_info s (fst p)) infos, map fst (sort_by_join (cb_index s))).
+
+Definition fhout_eqb (a b : fhout) : bool :=
+  match a, b with FReconnect, FReconnect | FRegister, FRegister | FDropLeader, FDropLeader => true | _, _ => false end.
+
+(* one heart-beat round of the real serviceDiscovery as a follower: (ping ok, reconnect ok, register ok), the calls
+   observed on the leader's client in order, and whether a leader is still assigned afterwards *)
+Definition chk_follower (c : (bool * bool * bool) * list fhout * bool) : bool :=
+  let '((p, r, g), outs, still) := c in
+  let '(mo, ms) := fh_round true p r g in
+  list_eqb fhout_eqb mo outs && Bool.eqb ms still.
